@@ -103,6 +103,9 @@ class _ArithmeticMixin:
     __rand__ = __and__
 
     def __xor__(self, other):
+        if not isinstance(other, _Base):
+            # *other* is needed twice; it may be a one-shot iterable.
+            other = self._set_type(other)
         return (self - other) | (other - self)
 
     __rxor__ = __xor__
